@@ -262,8 +262,9 @@ def vec_laws(sw, ell, name, h, lat, lon):
 
 
 def aa_tol(za, aa, lat):
-    """conditioning of the azimuth: acos of a cosine known to delta = 32 eps / (sin za cos lat)"""
-    delta = 32 * EPS / (np.sin(np.deg2rad(za)) * np.cos(np.deg2rad(lat)))
+    """conditioning of the azimuth: it is the acos of r dlat / sin(za) with za itself an acos near +-1 (error
+    eps / sin za, i.e. eps / sin^2 za relative in sin za): the cosine is known to delta = 32 eps / (sin^2 za cos lat)"""
+    delta = 32 * EPS / (np.sin(np.deg2rad(za)) ** 2 * np.cos(np.deg2rad(lat)))
     s = np.abs(np.sin(np.deg2rad(aa)))
     return np.rad2deg(np.minimum(2 * delta / np.maximum(s, 1e-300), 2 * np.sqrt(delta))) + 1e-10
 
